@@ -7,7 +7,7 @@ import RpmVerif.Props.C20
 The theorems quantify over *all* destination byte strings (any bytes, any length), all compression
 variants and all integer levels, all capability texts (for an arbitrary validator), all instants.
 
-* `addData` models `PackageBuilder::add_data` on top of the model of Unix `std::path`
+* `addDataRaw` models `PackageBuilder::add_data` on top of the model of Unix `std::path`
   (`Model/Path.lean`); `AddDataSpec.Splittable` is the property's "can be split into a directory
   and a file name", stated on the text alone.
 * The timestamp setters are the documented negative: `source_date` / `add_changelog_entry`
@@ -28,7 +28,7 @@ open RpmVerif.Path RpmVerif.AddData RpmVerif.AddDataSpec
 
 /-- `add_data` ends in `Ok` or in `Err(InvalidDestinationPath)`, for every destination -/
 theorem add_data_outcomes (dest : Bytes) :
-    (∃ cpio dir base, addData dest = .ok (cpio, dir, base)) ∨ addData dest = .err "InvalidDestinationPath" := by
+    (∃ cpio dir base, addDataRaw dest = .ok (cpio, dir, base)) ∨ addDataRaw dest = .err "InvalidDestinationPath" := by
   rcases start_cases dest with ⟨r, rfl⟩ | ⟨r, rfl⟩ | h
   · rw [addData_slash]
     cases trimTriv (splitSep r).reverse with
@@ -47,7 +47,7 @@ theorem add_data_outcomes (dest : Bytes) :
   · right; exact addData_bad_start h
 
 /-- **No panic** for any destination string -/
-theorem add_data_total (dest : Bytes) : (addData dest).isPanic = false := by
+theorem add_data_total (dest : Bytes) : (addDataRaw dest).isPanic = false := by
   rcases add_data_outcomes dest with ⟨c, d, b, h⟩ | h <;> rw [h] <;> rfl
 
 /-! ### which destinations are rejected -/
@@ -55,7 +55,7 @@ theorem add_data_total (dest : Bytes) : (addData dest).isPanic = false := by
 /-- **Accepted = splittable**: `add_data` succeeds exactly on the destinations that start with `/`
 or `./` and read `d/name` followed by nothing but separators and `/.` pieces, `name` a real name -/
 theorem add_data_ok_iff_splittable (dest : Bytes) :
-    (∃ res, addData dest = .ok res) ↔ Splittable dest := by
+    (∃ res, addDataRaw dest = .ok res) ↔ Splittable dest := by
   constructor
   · rintro ⟨⟨cpio, dir, base⟩, h⟩
     rcases start_cases dest with ⟨r, rfl⟩ | ⟨r, rfl⟩ | hb
@@ -80,7 +80,7 @@ theorem add_data_ok_iff_splittable (dest : Bytes) :
 component at all (`/`, `//`, `/.`); only the `.` of `./` (`./`, `.//`, `./.`); a last component
 that is `..` (`/..`, `/usr/..`, `./..`, `./a/..`) -/
 theorem add_data_err_unsplittable (dest : Bytes) :
-    ¬ Splittable dest ↔ addData dest = .err "InvalidDestinationPath" := by
+    ¬ Splittable dest ↔ addDataRaw dest = .err "InvalidDestinationPath" := by
   rw [← add_data_ok_iff_splittable]
   rcases add_data_outcomes dest with ⟨c, d, b, h⟩ | h
   · rw [h]; constructor
@@ -95,7 +95,7 @@ theorem splittableB_iff (dest : Bytes) : splittableB dest = true ↔ Splittable 
   ⟨split_of_splittableB, fun ⟨hv, _, _, _, h⟩ => splittableB_of_split hv h⟩
 
 /-- so the model's verdict and the driver's spec coincide on every destination -/
-theorem add_data_ok_iff_splittableB (dest : Bytes) : (addData dest).isOk = splittableB dest := by
+theorem add_data_ok_iff_splittableB (dest : Bytes) : (addDataRaw dest).isOk = splittableB dest := by
   have h1 := add_data_ok_iff_splittable dest
   have h2 := splittableB_iff dest
   cases hb : splittableB dest with
@@ -117,7 +117,7 @@ theorem splittable_hasFileName {dest : Bytes} (h : Splittable dest) : HasFileNam
 /-- … so **a destination without a file name is an error**, however it starts (the property's clause
 in its weakest reading; this is what the driver's verdict `unsplittable-accepted` is judged by) -/
 theorem add_data_err_no_file_name (dest : Bytes) (h : ¬ HasFileName dest) :
-    addData dest = .err "InvalidDestinationPath" :=
+    addDataRaw dest = .err "InvalidDestinationPath" :=
   (add_data_err_unsplittable dest).mp (fun hs => h (splittable_hasFileName hs))
 
 theorem hasFileNameB_iff (dest : Bytes) : hasFileNameB dest = true ↔ HasFileName dest :=
@@ -126,7 +126,7 @@ theorem hasFileNameB_iff (dest : Bytes) : hasFileNameB dest = true ↔ HasFileNa
 /-- the file name of a destination is determined by the text (the model computes it) -/
 theorem split_name_unique {dest d₁ n₁ t₁ d₂ n₂ t₂ : Bytes} (hv : ValidStart dest)
     (h₁ : Split dest d₁ n₁ t₁) (h₂ : Split dest d₂ n₂ t₂) : n₁ = n₂ := by
-  have key : ∀ {d n t}, Split dest d n t → ∃ c dir, addData dest = .ok (c, dir, n) := by
+  have key : ∀ {d n t}, Split dest d n t → ∃ c dir, addDataRaw dest = .ok (c, dir, n) := by
     intro d n t hsp
     have hn := isTriv_false_of_name hsp.nonempty hsp.notDot
     rcases hv with ⟨r, rfl⟩ | ⟨r, rfl⟩
@@ -150,7 +150,7 @@ theorem split_name_unique {dest d₁ n₁ t₁ d₂ n₂ t₂ : Bytes} (hv : Val
 * `cpio` is `dest` itself for the `./` form and `"." ++ dest` for the `/` form (always `./…`);
 * `dir ++ base` is a normalised form of `dest`: it has the same name components in the same order;
 * `get_file_paths()` (`Path::new(dir).join(base)`) reads back exactly `dir ++ base`. -/
-theorem add_data_ok_shape {dest cpio dir base : Bytes} (h : addData dest = .ok (cpio, dir, base)) :
+theorem add_data_ok_shape {dest cpio dir base : Bytes} (h : addDataRaw dest = .ok (cpio, dir, base)) :
     (∃ d trail, Split dest d base trail) ∧
     dir.head? = some 47 ∧ dir.getLast? = some 47 ∧
     cpio = (if hasRoot dest then 46 :: dest else dest) ∧
@@ -319,20 +319,20 @@ theorem build_args_can_panic :
 /-! ### non-vacuity -/
 
 -- the former panic witnesses are errors now: "./", "/usr/..", "./..", "/..", "./a/.."
-example : addData [46, 47] = .err "InvalidDestinationPath" := by decide
-example : addData [47, 117, 115, 114, 47, 46, 46] = .err "InvalidDestinationPath" := by decide
-example : addData [46, 47, 46, 46] = .err "InvalidDestinationPath" := by decide
-example : addData [47, 46, 46] = .err "InvalidDestinationPath" := by decide
-example : addData [46, 47, 97, 47, 46, 46] = .err "InvalidDestinationPath" := by decide
+example : addDataRaw [46, 47] = .err "InvalidDestinationPath" := by decide
+example : addDataRaw [47, 117, 115, 114, 47, 46, 46] = .err "InvalidDestinationPath" := by decide
+example : addDataRaw [46, 47, 46, 46] = .err "InvalidDestinationPath" := by decide
+example : addDataRaw [47, 46, 46] = .err "InvalidDestinationPath" := by decide
+example : addDataRaw [46, 47, 97, 47, 46, 46] = .err "InvalidDestinationPath" := by decide
 -- other rejected shapes: "a/b" (bad start), "/" and "//." (no parent), ".//." (nothing to strip)
-example : addData [97, 47, 98] = .err "InvalidDestinationPath" ∧ addData [47] = .err "InvalidDestinationPath" ∧
-    addData [47, 47, 46] = .err "InvalidDestinationPath" ∧ addData [46, 47, 47, 46] = .err "InvalidDestinationPath" := by decide
+example : addDataRaw [97, 47, 98] = .err "InvalidDestinationPath" ∧ addDataRaw [47] = .err "InvalidDestinationPath" ∧
+    addDataRaw [47, 47, 46] = .err "InvalidDestinationPath" ∧ addDataRaw [46, 47, 47, 46] = .err "InvalidDestinationPath" := by decide
 -- accepted: "/usr//bin/./x/" ↦ (".//usr//bin/./x/", "/usr//bin/", "x"); "./a" ↦ ("./a", "/", "a"); "/a" ↦ ("./a", "/", "a")
-example : addData [47, 117, 115, 114, 47, 47, 98, 105, 110, 47, 46, 47, 120, 47] =
+example : addDataRaw [47, 117, 115, 114, 47, 47, 98, 105, 110, 47, 46, 47, 120, 47] =
     .ok ([46, 47, 117, 115, 114, 47, 47, 98, 105, 110, 47, 46, 47, 120, 47], [47, 117, 115, 114, 47, 47, 98, 105, 110, 47], [120]) := by decide
-example : addData [46, 47, 97] = .ok ([46, 47, 97], [47], [97]) ∧ addData [47, 97] = .ok ([46, 47, 97], [47], [97]) := by decide
+example : addDataRaw [46, 47, 97] = .ok ([46, 47, 97], [47], [97]) ∧ addDataRaw [47, 97] = .ok ([46, 47, 97], [47], [97]) := by decide
 -- "././a/../b/." ↦ dir "/a/../", base "b"
-example : addData [46, 47, 46, 47, 97, 47, 46, 46, 47, 98, 47, 46] =
+example : addDataRaw [46, 47, 46, 47, 97, 47, 46, 46, 47, 98, 47, 46] =
     .ok ([46, 47, 46, 47, 97, 47, 46, 46, 47, 98, 47, 46], [47, 97, 47, 46, 46, 47], [98]) := by decide
 -- `Splittable` is inhabited and refutable: "/a/b/." splits as "/a" / "b" + "/."; "/.." does not split
 example : Splittable [47, 97, 47, 98, 47, 46] :=
@@ -370,5 +370,28 @@ example : buildArgs (fun _ _ => .ok ()) (fun t => t == [61, 101]) ⟨some (.secs
 example : buildArgs (fun _ _ => .ok ()) (fun t => t == [61, 101]) ⟨none, [], [⟨[47, 97], some [61]⟩], (2, 9)⟩ = .err "InvalidCapabilities" ∧
     buildArgs (fun _ _ => .ok ()) (fun _ => true) ⟨none, [], [⟨[47, 46, 46], none⟩], (2, 9)⟩ = .err "InvalidDestinationPath" ∧
     buildArgs (fun _ _ => .ok ()) (fun _ => true) ⟨none, [], [⟨[47, 97], none⟩], (4, 4294967295)⟩ = .err "level-out-of-range" := by decide
+
+/-! ### `add_data` after fix cbb69e5 (archive name = "." ++ dir ++ base name) -/
+
+/-- same acceptance, same directory and base name as the path splitting; never a panic -/
+theorem addData_eq_raw (dest : Bytes) :
+    addData dest = (addDataRaw dest).map fun r => ([46] ++ r.2.1 ++ r.2.2, r.2.1, r.2.2) := rfl
+
+theorem add_data_cpio_name {dest cpio dir base : Bytes} (h : addData dest = .ok (cpio, dir, base)) :
+    cpio = [46] ++ dir ++ base ∧ ∃ c, addDataRaw dest = .ok (c, dir, base) := by
+  unfold addData at h
+  cases hr : addDataRaw dest with
+  | ok r =>
+    obtain ⟨c, d, b⟩ := r
+    simp only [hr, Out.map, Out.ok.injEq, Prod.mk.injEq] at h
+    obtain ⟨rfl, rfl, rfl⟩ := h
+    exact ⟨rfl, c, rfl⟩
+  | err e => simp [hr, Out.map] at h
+  | panic s => simp [hr, Out.map] at h
+
+theorem add_data_new_total (dest : Bytes) : (addData dest).isPanic = false := by
+  have := add_data_total dest
+  unfold addData
+  cases hr : addDataRaw dest <;> simp_all [Out.map, Out.isPanic]
 
 end RpmVerif.C17
